@@ -516,4 +516,102 @@ theorem TreeWF.absent_below {fs : FS} (h : TreeWF fs) (pre : Path) (hp : fs.look
         rw [get_def, ih ini hlen] at hg
         cases hg
 
+
+/-! ### a directory has exactly one name
+  (link(2) refuses directories; the invariant lets a statement about "the directory at p" speak about its inode) -/
+
+def DirOne (fs : FS) : Prop :=
+  ∀ p q i n, fs.lookup p = some i → fs.lookup q = some i → fs.inode i = some n → n.kind = .dir → p = q
+
+/-- fewer (or the same) names, and every inode keeps its kind -/
+theorem DirOne.of_sub {fs fs' : FS} (h : DirOne fs) (hl : ∀ p i, fs'.lookup p = some i → fs.lookup p = some i)
+    (hk : ∀ i n', fs'.inode i = some n' → ∃ n, fs.inode i = some n ∧ n.kind = n'.kind) : DirOne fs' := by
+  intro p q i n' hp hq hi hd
+  obtain ⟨n, hn, hkk⟩ := hk i n' hi
+  exact h p q i n (hl p i hp) (hl q i hq) hn (by rw [hkk]; exact hd)
+
+theorem DirOne.setInode {fs : FS} (h : DirOne fs) (i : Ino) (n m : Inode) (hi : fs.inode i = some n) (hk : m.kind = n.kind) :
+    DirOne (fs.setInode i m) := by
+  refine h.of_sub (fun _ _ hp => hp) ?_
+  intro j n' hj
+  simp only [FS.setInode] at hj
+  split at hj
+  · rename_i e; subst e; cases hj; exact ⟨n, hi, hk.symm⟩
+  · exact ⟨n', hj, rfl⟩
+
+theorem DirOne.modInode {fs : FS} (h : DirOne fs) (i : Ino) (f : Inode → Inode) (hf : ∀ n, (f n).kind = n.kind) :
+    DirOne (fs.modInode i f) := by
+  unfold FS.modInode
+  split
+  · rename_i n hn; exact h.setInode i n (f n) hn (hf n)
+  · exact h
+
+theorem DirOne.touchParent {fs : FS} (h : DirOne fs) (q : Path) : DirOne (fs.touchParent q) := by
+  unfold FS.touchParent
+  split
+  · exact h.modInode _ _ (fun _ => rfl)
+  · exact h
+
+theorem DirOne.filter {fs : FS} (h : DirOne fs) (keep : Path → Bool) :
+    DirOne ({ fs with names := fs.names.filter (fun e => keep e.1) } : FS) := by
+  refine h.of_sub ?_ (fun i n' hi => ⟨n', hi, rfl⟩)
+  intro p i hp
+  rw [lookup_filterNames] at hp
+  split at hp
+  · exact hp
+  · cases hp
+
+theorem DirOne.removeSubtree {fs : FS} (h : DirOne fs) (q : Path) : DirOne (fs.removeSubtree q) := by
+  unfold FS.removeSubtree
+  exact (h.filter (fun x => !(under q x))).touchParent q
+
+theorem DirOne.removeBelow {fs : FS} (h : DirOne fs) (q : Path) : DirOne (fs.removeBelow q) := by
+  unfold FS.removeBelow
+  split
+  · exact (h.filter (fun x => !(under q x) || x == q)).modInode _ _ (fun _ => rfl)
+  · exact h
+
+theorem DirOne.create {fs : FS} (h : DirOne fs) (q : Path) (n : Inode) (hn : fs.lookup q = none) (hf : NextFresh fs) :
+    DirOne (fs.create q n) := by
+  unfold FS.create
+  simp only
+  apply DirOne.touchParent
+  intro p p' i m hp hp' hi hd
+  replace hp : (if p = q then some fs.next else fs.lookup p) = some i := by
+    rw [← lookup_append_new fs q fs.next hn p]; exact hp
+  replace hp' : (if p' = q then some fs.next else fs.lookup p') = some i := by
+    rw [← lookup_append_new fs q fs.next hn p']; exact hp'
+  by_cases e1 : p = q
+  · by_cases e2 : p' = q
+    · rw [e1, e2]
+    · exfalso
+      rw [if_pos e1] at hp; rw [if_neg e2] at hp'
+      cases hp
+      exact absurd (hf p' _ hp') (Nat.lt_irrefl _)
+  · by_cases e2 : p' = q
+    · exfalso
+      rw [if_neg e1] at hp; rw [if_pos e2] at hp'
+      cases hp'
+      exact absurd (hf p _ hp) (Nat.lt_irrefl _)
+    · rw [if_neg e1] at hp; rw [if_neg e2] at hp'
+      have hne : i ≠ fs.next := Nat.ne_of_lt (hf p i hp)
+      simp only [hne, if_false] at hi
+      exact h p p' i m hp hp' hi hd
+
+theorem DirOne.addName {fs : FS} (h : DirOne fs) (q : Path) (i : Ino) (hn : fs.lookup q = none)
+    (hnd : ∀ n, fs.inode i = some n → n.kind ≠ .dir) : DirOne (fs.addName q i) := by
+  unfold FS.addName
+  apply DirOne.touchParent
+  intro p p' j m hp hp' hj hd
+  have hl : ∀ r, ({ fs with names := fs.names ++ [(q, i)] } : FS).lookup r = if r = q then some i else fs.lookup r :=
+    fun r => lookup_append_new fs q i hn r
+  rw [hl] at hp hp'
+  have hji : j ≠ i := fun e => hnd m (e ▸ hj) hd
+  by_cases e1 : p = q
+  · rw [if_pos e1] at hp; cases hp; exact absurd rfl hji
+  · by_cases e2 : p' = q
+    · rw [if_pos e2] at hp'; cases hp'; exact absurd rfl hji
+    · rw [if_neg e1] at hp; rw [if_neg e2] at hp'
+      exact h p p' j m hp hp' hj hd
+
 end GA
